@@ -36,10 +36,10 @@ CLAIMS = {
   "note": "Trusted: Lean kernel; axioms propext, Classical.choice, Quot.sound; clap; `lace watch` is not spawned (it calls the same assemble(); its state reset is C19).",
   "ref": "DESIGN.md §4 C07"},
  "C08": {
-  "technique": "Lean 4 proof (compile over an abstract file system is all-or-nothing for every emission-failure pattern and destination kind) + process-mode fault enumeration against the real lace binary",
-  "text": "Theorems compile_all_or_nothing, compile_fail_at, compile_unwritable hold for every assembler outcome, every statement position of an emission failure and every destination kind (absent / existing regular file / /dev/full / uncreatable). Tied to the code on every run by spawning the real `lace compile` with a failure injected at each statement position and with each destination kind and comparing exit status and destination bytes with the model and directly with the all-or-nothing predicate. PARTIAL by nature: a write that fails half-way on a regular file is OS behaviour outside the file-system model.",
-  "note": "Trusted: Lean kernel; axioms propext, Classical.choice, Quot.sound; the three-destination file-system model (create/write_all/flush semantics) is an assumption validated only by the spawns.",
-  "ref": "DESIGN.md §4 C08"},
+  "technique": "Lean 4 proof (compile over a file-system model with destination, temporary sibling and a fault parameter - size limit at any byte count, failing rename - is all-or-nothing for every emission-failure pattern, destination kind and fault) + process-mode fault enumeration against the real lace binary (emission failure at every statement, four destination kinds, RLIMIT_FSIZE write failures at every byte position)",
+  "text": "Theorems compile_all_or_nothing_faults, writeAllOrNothing_spec, compile_write_fails_at, compile_all_or_nothing, compile_fail_at, compile_unwritable hold for every assembler outcome, every statement position of an emission failure, every destination kind (absent / existing regular file / /dev/full / uncreatable), every file size limit (a write failing after any number of bytes) and a failing rename; they also show no temporary file is left behind. in_place_truncates states the defect of the previous in-place implementation (fixed in lace 18fb606). Tied to the code on every run by spawning the real `lace compile` with a failure injected at each statement position, with each destination kind and under RLIMIT_FSIZE limits (exhaustive over every byte position of a small object file), comparing exit status, destination bytes and left-over files with the model and directly with the all-or-nothing predicate. Outside the model: a crash between two file operations.",
+  "note": "Trusted: Lean kernel; axioms propext, Classical.choice, Quot.sound; the file-system model (create/write_all under a size limit/flush/rename/remove semantics) is an assumption validated only by the spawns; a failing rename is proved about but not injected.",
+  "ref": "DESIGN.md §4 C08, §12"},
  "C14": {
   "technique": "Lean 4 proof (integer/command parsers = declarative grammar on all strings, no panic, argument reader = stdin reader, transport independence, `;` = newline) + exhaustive/differential correspondence through cfg(verif) hooks",
   "text": "Theorems parse_integer_eq_grammar, parse_command_eq_grammar, parse_no_panic, reader_lines_valid, read_no_panic, session_no_panic, split_argument_eq_split_stdin, session_eq_lines, transport_independent (+ _semicolon, _argument_only), separators_equivalent, session_eq_script, commandTable_unambiguous, parse_offsets_in_range hold for all strings of any length. The model is tied to the code on every run by parsing ~500k lines (all argument strings up to length 4/5 over a 16-symbol alphabet in 5 templates, boundary literals in every radix, every command name/alias/misspelling in three cases, random multi-byte lines) and every argument/stdin split of 200 scripts through the real parser and readers.",
